@@ -275,6 +275,25 @@ def temp_cases(sh, stem, ref, rig, block, r, keyp):
                 sh.count("temperature_decimals_through_all_paths")
                 if len(set(got.values())) > 1:
                     sh.violation(f"{keyp}:paths-differ", f"{stem}/{ref.tag}: temperature {v!r} ({units}): blocking and awaitable paths emit different device writes {got}", {"module": stem, "item": ref.tag, "value": v, "units": units, "emitted": {k: repr(x) for k, x in got.items()}})
+    # the unit field holding a value beyond its two labels (whole-byte enums: 2..255): whatever unit the
+    # library takes that for, all three write paths take it for the same one
+    if ref.rw is not None and uref.kind == "Enum" and uref.mask >= 3 and not ((uref.pos < ref.pos + 2) and (ref.pos < uref.pos + uref.width)):
+        for uraw in sorted({2, uref.mask, r.randrange(2, uref.mask + 1)}):
+            ub = bytearray(block)
+            word = int.from_bytes(ub[uref.pos : uref.pos + uref.width], "big")
+            word = (word & ~uref.field_mask) | ((uraw & uref.mask) << uref.shift)
+            ub[uref.pos : uref.pos + uref.width] = word.to_bytes(uref.width, "big")
+            rig.set_block(bytes(ub))
+            for v in [38, 38.5, 100.0, "99.5", round(r.uniform(10, 110), 1)]:
+                got = {}
+                for path in PATHS:
+                    cap, exc = rig.write(path, ref.tag, v)
+                    sh.count("writes")
+                    got[path] = ("raised " + type(exc).__name__) if exc is not None else tuple(tuple(c[1:]) for c in cap)
+                sh.evaluations += 1
+                sh.count("temperature_writes_under_an_unlabelled_unit_value")
+                if len(set(got.values())) > 1:
+                    sh.violation(f"{keyp}:paths-differ", f"{stem}/{ref.tag}: temperature {v!r} with the unit field at {uraw} (beyond its labels): blocking and awaitable paths emit different device writes {got}", {"module": stem, "item": ref.tag, "value": v, "unit_raw": uraw, "emitted": {k: repr(x) for k, x in got.items()}})
     rig.set_block(block)
 
 
